@@ -5,7 +5,7 @@ MAXW = (1 << 64) - 1
 
 class Case:
     def __init__(self, cid, kind, vals=None, start=0, stop=0, script=None, hint="inexact", adapt="none",
-                 threads=None, owner="drop", sched=None, frozen=None, iters=1, mode="release", clonepanic=None, tags=None):
+                 threads=None, owner="drop", sched=None, frozen=None, iters=1, mode="release", clonepanic=None, droppanic=None, tags=None):
         self.id = cid
         self.kind = kind            # slice vecref arrref vec array range iter iterref
         self.vals = list(vals or [])
@@ -20,6 +20,7 @@ class Case:
         self.iters = iters
         self.mode = mode
         self.clonepanic = clonepanic
+        self.droppanic = droppanic      # the k-th recorded destruction of an element panics
         self.tags = set(tags or [])
 
     # ---- source facts -------------------------------------------------------------------------
@@ -88,6 +89,8 @@ class Case:
         L.append("mode %s" % self.mode)
         if self.clonepanic is not None:
             L.append("clonepanic %d" % self.clonepanic)
+        if self.droppanic is not None:
+            L.append("droppanic %d" % self.droppanic)
         for i, t in enumerate(self.threads):
             L.append("thread %d: %s" % (i, " ; ".join(t)))
         L.append("owner %s" % self.owner)
@@ -136,6 +139,8 @@ def parse_cases(text):
             cur.mode = toks[1]
         elif toks[0] == "clonepanic":
             cur.clonepanic = int(toks[1])
+        elif toks[0] == "droppanic":
+            cur.droppanic = int(toks[1])
         elif toks[0] == "thread":
             head, _, prog = line.partition(":")
             t = int(head.split()[1])
